@@ -389,6 +389,14 @@ def parsePlan (origin : Bytes) : List TStep → List Tok → List TVal → Optio
     else match parseIPv4 l.token with
       | some a => parsePlan origin rest ts.tail (acc ++ [.s a])
       | none => none
+  | .saltNE :: rest, ts, acc =>
+    let l := headTok ts
+    if l.token = [] ∨ l.err then none
+    else parsePlan origin rest ts.tail (acc ++ [.s (if l.token = [45] then [] else l.token)])
+  | .tokNE :: rest, ts, acc =>
+    let l := headTok ts
+    if l.token = [] ∨ l.err then none
+    else parsePlan origin rest ts.tail (acc ++ [.s l.token])
   | .salt :: rest, ts, acc =>
     let l := headTok ts
     if l.err then none
